@@ -231,11 +231,16 @@ def c04_all_forms(rng):
 ABS_TPL = ["{d:02d}.{m:02d}.{y}", "{d}.{m}.{y}", "{d:02d}/{m:02d}/{y}", "{d:02d}-{m:02d}-{y}",
            "{d}/{m}/{y}", "{d}-{m}-{y}", "{d}. {M} {y}", "{d} {M} {y}", "{M} {d} {y}",
            "{M} {o} {y}", "{o} of {M} {y}", "{o} {M} {y}", "{d}.{M}.{y}",
-           "{d:02d}.{m:02d}.{yy:02d}", "{d}.{m}.{yy:02d}"]
+           "{d:02d}.{m:02d}.{yy:02d}", "{d}.{m}.{yy:02d}",
+           # written without blanks (05MAR2021, 5Mar2021, 31 Jan2029)
+           "{d:02d}{M}{y}", "{d}{M}{y}", "{d} {M}{y}"]
 ABS_CLOCK = ["", "", " {h}:{mi:02d}", " {h:02d}:{mi:02d}", " {h}:{mi:02d}:{ss:02d}",
              " um {h}:{mi:02d} uhr",
              " at {h}:{mi:02d}", " {h}:{mi:02d} uhr", " {h12}:{mi:02d} {ap}", " at {h12}:{mi:02d}{ap}",
              " {h12}.{mi:02d} {ap}", " {h}.{mi:02d} uhr", " {h:02d}.{mi:02d} uhr"]
+# clocks given to the hour only (the minute of the answer is 0 or left unset)
+ABS_CLOCK_HOUR = [" {h} uhr", " {h12} {ap}", " at {h12} {ap}", " {h}h", " {h12} o'clock",
+                  " um {h} uhr", " {h12}{ap}"]
 MONTHNAME_TPLS = {t for t in ABS_TPL if "{M}" in t}
 
 
@@ -266,6 +271,12 @@ def c05_forms(rng, n):
             # century, month or two-digit year)
             h, mi = rng.choice([(m, y // 100), (d % 24, m), (m, y % 100 if y % 100 < 60 else m),
                                 (d % 24, y // 100), (m + 12 if m < 12 else m, y // 100)])
+        hour_only = False
+        if ck and rng.random() < 0.15:
+            ck = rng.choice(ABS_CLOCK_HOUR)
+            mi, hour_only = 0, True
+            if "o'clock" in ck:
+                h = h % 12 or 12       # "5 o'clock" says nothing about am / pm
         if ".{mi" in ck and mi <= 12:
             # "7.05 am" is itself a well-formed dd.mm date (and "am" the German "on"): a dotted
             # clock stands next to a date only where its minute cannot be a month (appendix A)
@@ -298,9 +309,12 @@ def c05_forms(rng, n):
         if rng.random() < 0.1:
             # brackets / a trailing comma: pre-processing turns them into blanks
             s = rng.choice(["(%s)", "%s,", "[%s]", "%s ;"]) % s
+        if hour_only and tpl in MONTHNAME_TPLS:
+            t = "abs:monthname+hour-only-clock|" + order
         if two_digit and y < 2000:
             t = "abs:dd.mm.yy-19yy"
-        out.append({"c": "abs", "p": p, "s": s, "t": t, "two_digit": two_digit})
+        out.append({"c": "abs", "p": p, "s": s, "t": t, "two_digit": two_digit,
+                    "hour_only": hour_only})
     return out
 
 
@@ -320,7 +334,7 @@ def c06_forms(rng, n, year_hint=2020):
         ap = "am" if h < 12 else "pm"
         t12 = (":12" + ap) if h12 == 12 else ""
         kinds = ["24", "24z", "12", "12tight", "uhr", "h", "mil", "spoken", "named", "pod",
-                 "12dot", "midnight", "miluhr"]
+                 "12dot", "midnight", "miluhr", "mil12"]
         k = rng.choice(kinds)
         f = None
         if k == "24":
@@ -354,6 +368,14 @@ def c06_forms(rng, n, year_hint=2020):
             if mi % 5:
                 continue
             f = ("%02d%02d" % (h, mi), "{hh}{mm}")
+        elif k == "mil12":
+            # four digits followed by am/pm ("0820 pm"): the 12h marker on the military form
+            if mi % 5 or rng.random() < 0.5:
+                h, mi = rng.choice([20, 20, 8, 21, 0, 12, 23, 11]), rng.choice([15, 20, 25, 30, 35, 40])
+            h12 = h % 12 or 12
+            ap = "am" if h < 12 else "pm"
+            t12 = (":12" + ap) if h12 == 12 else ""
+            f = (rng.choice(["%02d%02d %s", "%02d%02d%s"]) % (h12, mi, ap), "{hh12}{mm} ap" + t12)
         elif k == "miluhr":
             # four digits followed by a clock word: the military-time heuristics (multiple of
             # 5, "looks like the current year") do not apply (rules.py:462-466)
@@ -384,10 +406,13 @@ def c06_forms(rng, n, year_hint=2020):
             named = rng.random() < 0.4
             de = "viertel" in tpl or "halb" in tpl
 
+            # the hour may carry its own clock word ("quarter past 5 o'clock", "halb 8 uhr")
+            suffix = rng.choice(["", "", "", " uhr"] if de else ["", "", "", " o'clock", " oclock"])
+
             def w(x):
-                return (NAMED_DE if de else NAMED_EN)[x - 1] if named else str(x)
+                return ((NAMED_DE if de else NAMED_EN)[x - 1] if named else str(x)) + suffix
             f = (tpl.format(H=w(H) if 1 <= H <= 12 else H, H1=w(H1) if 1 <= H1 <= 12 else H1),
-                 "spoken:" + tpl + (":named" if named else ""))
+                 "spoken:" + tpl + (":named" if named else "") + (":" + suffix.strip() if suffix else ""))
         elif k == "named":
             if mi or not (1 <= h <= 12):
                 continue
